@@ -6,6 +6,7 @@ From KV Require Import Base.Prelude Base.Xxh32 Model.Codecs Model.Responses Mode
                        Proofs.C12Facts.
 
 From KV Require Import Proofs.C12Extra.
+From KV Require Import Proofs.C12ExtraB.
 Theorem C12_explicit : forall parts cntr topic p key, 0 <= p -> partition parts cntr topic p key = (p, cntr).
 Proof. exact C12Facts.C12_explicit. Qed.
 
@@ -181,3 +182,64 @@ Print Assumptions C12_send_all_rejects.
 Print Assumptions C12_send_counter.
 Print Assumptions C12_unassigned_rejected_anywhere.
 Print Assumptions C12_unknown_topic_rejected_anywhere.
+
+Theorem C12_assign_app :
+  forall (parts : list (bytes * pparts)) (cntr : Z) (a b : list record), fst (assign parts cntr (a ++ b)) = fst (assign parts cntr a) ++ fst (assign parts (snd (assign parts cntr a)) b) /\ snd (assign parts cntr (a ++ b)) = snd (assign parts (snd (assign parts cntr a)) b).
+Proof. exact (@C12ExtraB.C12_assign_app). Qed.
+
+Theorem C12_assigned_msgs_nth :
+  forall (recs : list record) (qs : list Z) (i : nat) (r : record) (q : Z), nth_error recs i = Some r -> nth_error qs i = Some q -> nth_error (assigned_msgs recs qs) i = Some {| Client.pq_topic := r_topic r; Client.pq_partition := q; Client.pq_key := to_option (r_key r); Client.pq_value := to_option (r_value r) |}.
+Proof. exact (@C12ExtraB.C12_assigned_msgs_nth). Qed.
+
+Theorem C12_chain_counters_nth :
+  forall (parts : list (bytes * pparts)) (batches : list (list record)) (cntr : Z) (k : nat) (b : list record), nth_error batches k = Some b -> nth_error (chain_counters parts cntr batches) k = Some (snd (assign parts cntr (concat (firstn k batches)))) /\ fst (assign parts (snd (assign parts cntr (concat (firstn k batches)))) b) = firstn (length b) (skipn (length (concat (firstn k batches))) (fst (assign parts cntr (concat batches)))).
+Proof. exact (@C12ExtraB.C12_chain_counters_nth). Qed.
+
+Theorem C12_cntr_after_prefix :
+  forall (p : producer) (c : Net.client) (recs : list record), exists n : nat, (n <= length recs)%nat /\ cntr_after p c recs = snd (assign (p_parts p) (p_cntr p) (firstn n recs)) /\ (fst (send_all_reqs (Net.cs c) (p_parts p) (p_cntr p) recs []) <> None -> n = length recs) /\ (fst (send_all_reqs (Net.cs c) (p_parts p) (p_cntr p) recs []) = None -> exists (r : record) (q : Z), nth_error recs (n - 1) = Some r /\ (0 < n)%nat /\ nth_error (fst (assign (p_parts p) (p_cntr p) recs)) (n - 1) = Some q /\ find_broker (Net.cs c) (r_topic r) q = None).
+Proof. exact (@C12ExtraB.C12_cntr_after_prefix). Qed.
+
+Theorem C12_history_keyless_has_leader :
+  forall (s : cstate) (cntr : Z) (recs : list record) (i : nat) (r : record) (id : Z), 0 <= cntr < 4294967296 -> nth_error recs i = Some r -> r_partition r < 0 -> r_key r = [] -> find_broker s (r_topic r) id <> None -> exists (q : Z) (host : bytes), nth_error (fst (assign (producer_state s) cntr recs)) i = Some q /\ find_broker s (r_topic r) q = Some host.
+Proof. exact (@C12ExtraB.C12_history_keyless_has_leader). Qed.
+
+Theorem C12_send_all_accepted_iff :
+  forall (s : cstate) (parts : list (bytes * pparts)) (cntr : Z) (recs : list record) (reqs : list (bytes * Requests.produce_tps)), fst (send_all_reqs s parts cntr recs reqs) <> None <-> (forall (i : nat) (r : record) (q : Z), nth_error recs i = Some r -> nth_error (fst (assign parts cntr recs)) i = Some q -> find_broker s (r_topic r) q <> None).
+Proof. exact (@C12ExtraB.C12_send_all_accepted_iff). Qed.
+
+Theorem C12_send_all_accepts_routable :
+  forall (s : cstate) (cntr : Z) (recs : list record) (reqs : list (bytes * Requests.produce_tps)), 0 <= cntr < 4294967296 -> (forall r : record, In r recs -> routable s r) -> fst (send_all_reqs s (producer_state s) cntr recs reqs) <> None /\ snd (send_all_reqs s (producer_state s) cntr recs reqs) = snd (assign (producer_state s) cntr recs).
+Proof. exact (@C12ExtraB.C12_send_all_accepts_routable). Qed.
+
+Theorem C12_send_all_chain :
+  forall (batches : list (list record)) (p : producer) (s : Net.st) (p' : producer) (s' : Net.st), send_all_chain p batches s = (Ok p', s') -> p_parts p' = p_parts p /\ p_cntr p' = snd (assign (p_parts p) (p_cntr p) (concat batches)).
+Proof. exact (@C12ExtraB.C12_send_all_chain). Qed.
+
+Theorem C12_send_all_chain_call :
+  forall (bs1 : list (list record)) (b : list record) (bs2 : list (list record)) (p : producer) (s : Net.st) (p' : producer) (s' : Net.st), send_all_chain p (bs1 ++ b :: bs2) s = (Ok p', s') -> exists (pk : producer) (sk : Net.st) (cf : list Client.confirm) (pk1 : producer) (sk1 : Net.st), send_all_chain p bs1 s = (Ok pk, sk) /\ p_parts pk = p_parts p /\ p_cntr pk = snd (assign (p_parts p) (p_cntr p) (concat bs1)) /\ producer_send_all pk b sk = (Ok (cf, pk1), sk1) /\ send_all_chain pk1 bs2 sk1 = (Ok p', s') /\ fst (assign (p_parts pk) (p_cntr pk) b) = firstn (length b) (skipn (length (concat bs1)) (fst (assign (p_parts p) (p_cntr p) (concat (bs1 ++ b :: bs2))))).
+Proof. exact (@C12ExtraB.C12_send_all_chain_call). Qed.
+
+Theorem C12_send_all_chain_counter :
+  forall (batches : list (list record)) (p : producer) (s : Net.st) (p' : producer) (s' : Net.st), 0 <= p_cntr p < 4294967296 -> send_all_chain p batches s = (Ok p', s') -> p_cntr p' = (p_cntr p + rot_count (p_parts p) (concat batches)) mod 4294967296.
+Proof. exact (@C12ExtraB.C12_send_all_chain_counter). Qed.
+
+Theorem C12_send_all_is_client_produce :
+  forall (p : producer) (recs : list record) (s : Net.st), producer_send_all p recs s = Net.mbind (Client.internal_produce_messages (p_acks p) (p_ack_timeout p) (assigned_msgs recs (fst (assign (p_parts p) (p_cntr p) recs)))) (fun cf : list Client.confirm => Net.ret (cf, producer_set_cntr p (snd (assign (p_parts p) (p_cntr p) recs)))) s.
+Proof. exact (@C12ExtraB.C12_send_all_is_client_produce). Qed.
+
+Theorem C12_send_all_rejected_only_if :
+  forall (s : cstate) (parts : list (bytes * pparts)) (cntr : Z) (recs : list record) (reqs : list (bytes * Requests.produce_tps)), fst (send_all_reqs s parts cntr recs reqs) = None -> exists (i : nat) (r : record) (q : Z), nth_error recs i = Some r /\ nth_error (fst (assign parts cntr recs)) i = Some q /\ find_broker s (r_topic r) q = None /\ (forall (j : nat) (r' : record) (q' : Z), (j < i)%nat -> nth_error recs j = Some r' -> nth_error (fst (assign parts cntr recs)) j = Some q' -> find_broker s (r_topic r') q' <> None) /\ snd (send_all_reqs s parts cntr recs reqs) = snd (assign parts cntr (firstn (S i) recs)).
+Proof. exact (@C12ExtraB.C12_send_all_rejected_only_if). Qed.
+
+Print Assumptions C12_assign_app.
+Print Assumptions C12_assigned_msgs_nth.
+Print Assumptions C12_chain_counters_nth.
+Print Assumptions C12_cntr_after_prefix.
+Print Assumptions C12_history_keyless_has_leader.
+Print Assumptions C12_send_all_accepted_iff.
+Print Assumptions C12_send_all_accepts_routable.
+Print Assumptions C12_send_all_chain.
+Print Assumptions C12_send_all_chain_call.
+Print Assumptions C12_send_all_chain_counter.
+Print Assumptions C12_send_all_is_client_produce.
+Print Assumptions C12_send_all_rejected_only_if.
